@@ -30,7 +30,7 @@ try:
 finally:
     subprocess.run(["git", "-C", REPO, "checkout", "--", "."], check=True)
     subprocess.run(["git", "-C", REPO, "clean", "-fdq"], check=False)
-rp = os.path.join(sdir, "results.json")
+rp = os.path.join(sdir, os.environ.get("SEED_RESULTS_FILE", "results.json"))
 old = json.load(open(rp)) if os.path.exists(rp) else {}
 old.update(results)
 json.dump(old, open(rp, "w"), indent=1)
